@@ -358,11 +358,17 @@ def r07_4_composite_pairing(ctx: Ctx) -> RuleResult:
     subs = [n for n in own_nodes(ffp.node) if isinstance(n, ast.Subscript) and "patterns" in unparse(n.value)]
     from ..kit import inline_locals as _inl
 
-    good = any("format_predicates.index(" in unparse(s.slice) or "format_predicates.index(" in unparse(_inl(ffp.node, s.slice)) or (isinstance(s.slice, ast.Name) and any(isinstance(l, ast.For) and "enumerate" in unparse(l.iter) and "predicates" in unparse(l.iter) for l in own_nodes(ffp.node))) for s in subs)
-    if good:
-        rr.ok({"lookup": unparse(subs[0])[:80]})
+    # the position must be the loop's own index (enumerate / range over the predicate list): `list.index(predicate)` finds the FIRST
+    # equal element, so when one predicate object is registered for two patterns the first pattern is used although the last
+    # accepting one is documented to win
+    by_value = [s_ for s_ in subs if "format_predicates.index(" in unparse(s_.slice) or "format_predicates.index(" in unparse(_inl(ffp.node, s_.slice))]
+    by_position = [s_ for s_ in subs if isinstance(_inl(ffp.node, s_.slice), ast.Name) and any(isinstance(l, ast.For) and ("enumerate" in unparse(l.iter) or "range" in unparse(l.iter)) and "predicates" in unparse(l.iter) for l in own_nodes(ffp.node))]
+    if by_value:
+        rr.fail(ffp.qual, f"`{unparse(by_value[0])[:80]}` looks the accepting predicate up by VALUE: with the same predicate object registered twice the first of its patterns is used, not the last accepting one", ctx.loc(ffp, by_value[0]))
+    elif by_position:
+        rr.ok({"lookup": unparse(by_position[0])[:80], "by": "loop position"})
     else:
-        rr.fail(ffp.qual, "the pattern used for formatting is not the one at the index of the accepting predicate", ffp.loc)
+        rr.fail(ffp.qual, "the pattern used for formatting is not the one at the position of the accepting predicate", ffp.loc)
     # the two parallel lists are filled pairwise at every construction site
     for f in M.funcs.values():
         if not f.mod.rel.startswith(TEXT) or isinstance(f.node, ast.Lambda):
